@@ -80,6 +80,9 @@ func retypeGraph(s *world.Schema, variant int) *world.Graph {
 		n.F["named"] = pick(impls, i)
 		n.F["mnamed"] = pick(impls, i+1)
 		n.F["u"] = pick(membs, i+2)
+		if n.Type == "C" {
+			n.F["buddy"] = pick(impls, i) // C.buddy is declared Named: the value must be an implementer in this variant
+		}
 		n.F["nameds"] = list(impls, i, variant == 1)
 		n.F["us"] = list(membs, i+1, variant == 1)
 	}
